@@ -83,4 +83,28 @@ Dec(s, items, partial) ==
                  ELSE IF more THEN Dec(rest, items, Append(partial, len))
                  ELSE Dec(rest, Append(items, Append(partial, len)), <<>>)
 Decode(s) == Dec(s, <<>>, <<>>)
+
+\* Lenient variant for hostile input (C03): a malformed or unknown command is recorded ("E") and skipped, decoding
+\* continues behind it.  Whatever a tolerant implementation may still deliver afterwards is in this list.
+RECURSIVE DecL(_, _, _, _)
+DecL(s, items, msgs, partial) ==
+  IF s = <<>> THEN [items |-> items, msgs |-> msgs, tail |-> "clean", partial |-> Len(partial)]
+  ELSE LET fl == s[1]
+           long == (fl \div 2) % 2 = 1
+           more == fl % 2 = 1
+           cmd == (fl \div 4) % 2 = 1
+           hdr == IF long THEN 9 ELSE 2 IN
+       IF Len(s) < hdr THEN [items |-> items, msgs |-> msgs, tail |-> "needmore", partial |-> Len(partial)]
+       ELSE IF long /\ Huge(Sub(s, 2, 9)) THEN [items |-> items, msgs |-> msgs, tail |-> "needmore-huge", partial |-> Len(partial)]
+       ELSE LET len == IF long THEN BE(Sub(s, 2, 9)) ELSE s[2] IN
+            IF Len(s) < hdr + len THEN [items |-> items, msgs |-> msgs, tail |-> "needmore", partial |-> Len(partial)]
+            ELSE LET body == Sub(s, hdr + 1, hdr + len)
+                     rest == Sub(s, hdr + len + 1, Len(s)) IN
+                 IF cmd THEN LET c == ParseCmd(body) IN
+                      IF ~c.ok THEN DecL(rest, Append(items, "E:" \o c.err), msgs, partial)
+                      ELSE IF c.name # READYname THEN DecL(rest, Append(items, "E:cmd-unknown"), msgs, partial)
+                      ELSE DecL(rest, Append(items, "C"), msgs, partial)
+                 ELSE IF more THEN DecL(rest, items, msgs, Append(partial, len))
+                 ELSE DecL(rest, Append(items, Append(partial, len)), Append(msgs, Append(partial, len)), <<>>)
+DecodeLenient(s) == DecL(s, <<>>, <<>>, <<>>)
 =============================================================================
